@@ -131,6 +131,8 @@ def run_c12(run, thorough=False):
     for mn in [i.mnemonic for i in gen_asm.real_instructions()][:: (1 if thorough else 7)]:
         for t in TRICKY:
             cases.append({"lines": gen_asm.L(" %s %s" % (mn, t)), "tag": "tricky", "meta": {}})
+    # the string-level cascade on its own: every short string over the value alphabet (bounded-exhaustive) and structured values
+    fam_asm.run_values(run, rnd, 1500 if not thorough else 30000, 2 if not thorough else 4)
     res = fam_asm.compare_progs(run, "asm.anytext", cases)
     disagree_keys = {fam_asm_key(d["input"]) for d in run.disagreements}
     todo = []
